@@ -88,12 +88,12 @@ class MonthLongStringMiddleware(_MonthInterpolator):
     # docstr-coverage: inherited
     def resolve_month_field_val(self, month_field: Field):
         v = month_field.value
-        if isinstance(v, str) and v.isdigit():
+        if isinstance(v, str) and v.isdecimal():
             v = int(v)
         if isinstance(v, int):
             if v < 1 or v > 12:
                 return (
-                    month_field,
+                    month_field.value,
                     f"month-field unchanged - unknown month {v}",
                 )  # Nothing we can do here
             return _MONTH_FULL[v - 1], "transformed int-month to str-month"
@@ -132,12 +132,12 @@ class MonthAbbreviationMiddleware(_MonthInterpolator):
     # docstr-coverage: inherited
     def resolve_month_field_val(self, month_field: Field):
         v = month_field.value
-        if isinstance(v, str) and v.isdigit():
+        if isinstance(v, str) and v.isdecimal():
             v = int(v)
         if isinstance(v, int):
             if v < 1 or v > 12:
                 # Nothing we can do here
-                return month_field, f"month-field unchanged - unknown month {v}"
+                return month_field.value, f"month-field unchanged - unknown month {v}"
             return _MONTH_ABBREV[v - 1], "transformed int-month to abbreviated month"
         elif isinstance(v, str):
             v_lower = v.lower()
@@ -180,7 +180,7 @@ class MonthIntMiddleware(_MonthInterpolator):
                     "transformed abbreviated month to int-month",
                 )
 
-        if isinstance(v, str) and v.isdigit():
+        if isinstance(v, str) and v.isdecimal():
             if 1 <= int(v) <= 12:
                 return int(v), "cast month int-string to int"
 
